@@ -578,8 +578,9 @@ def saves_term(seg, rec, P, dst):
         fd, tmp = 0, 0
         if main and main[0][0] == "O":
             fd, tmp = main[0][1], P(main[0][2])
-        if fault == "limit" or fault == "source" or (v.get("expect_err") and fault not in FAULT_CODE):
-            ending = 2
+        if fault == "limit" or fault == "source" or (v.get("expect_err") and fault not in FAULT_CODE) or (
+                v.get("err") and fault == ""):
+            ending = 2      # no injected fault and an error: the source, the reader or the parser failed
         elif v.get("skipped"):
             ending = 1
         else:
@@ -716,6 +717,7 @@ def build_case(seg, rec, root, want_dir=None):
     keep = [str(P(p)) for p in rec.get("keep") or []]
     saves, left = saves_term(seg, rec, P, dst)
     keep += [str(n) for n in left]
+    rec["_tmp_left_behind"] = len(left)
     coq = "(CTrace 1 %s %s %s %s %s %s %s %s)%%N" % (
         glist(keep), glist(ents), trace_term, gb(bm), gb(not rec.get("unordered")), glist(lens), glist(vers),
         glist(saves))
@@ -843,7 +845,7 @@ def main():
             msgs.append(("unsupported", "trace of %s uses operations outside the model: %s" % (
                 rec["name"], "; ".join(seg.unsupported[:3]))))
         for v in rec["versions"][1:]:
-            if v.get("err") and not v.get("expect_err"):
+            if v.get("err") and not v.get("expect_err") and not v.get("may_fail"):
                 msgs.append(("save-error", "save %s of %s failed: %s" % (v.get("label"), rec["name"], v["err"])))
         cls = list(rec.get("classes") or [])
         cls.append("byte-mode" if bm else "chunk-mode")
@@ -856,6 +858,9 @@ def main():
             cls.append("reader-saw-several-versions")
         if any(op[0] == "U" for op in seg.ops):
             cls.append("unlink-in-trace")
+        if rec.get("_tmp_left_behind"):
+            # finalizeUpdate does not clean up after a failed CloseReplace (mirrored by the model)
+            cls.append("tmp-left-behind")
         nsaves = len(rec["versions"]) - 1
         rel = {p: n for p, n in pid.items()}
         desc = {"pkg": a.pkg, "case": rec["name"], "trace_file": os.path.basename(a.trace), "injected": a.inject,
